@@ -36,7 +36,7 @@ VARIANTS = [
     dict(name="static", w=("sc", "Int64"), a=("sc", "Float32"), s=("sc", "UInt16"), arr=("arr", "Int16", (3,), (3,)), k=("sc", "UInt8"), z=("sc", "Int8"),
          h=("sc", "UInt32"), x=("sc", "UInt64"), y=("sc", "Int16"), wr="elem", cap=1 << 14),
     dict(name="nd", w=("sc", "UInt16"), a=("sc", "UInt8"), s=("str",), arr=("arr", "Float64", (2, 2), (2, 2)), k=("sc", "Int64"), z=("sc", "UInt16"),
-         h=("sc", "Int8"), x=("sc", "Float64"), y=("sc", "UInt32"), wr="whole", cap=1 << 14),
+         h=("str",), x=("sc", "Float64"), y=("sc", "UInt32"), wr="whole", cap=1 << 14),        # (a Holder of dynamic size: reference + string)
     dict(name="dyn2d-grow", w=("sc", "Float64"), a=("sc", "Int16"), s=("str",), arr=("arr", "Int32", (None, 2), (2, 2)), k=("sc", "Float32"), z=("sc", "Int32"),
          h=("sc", "UInt64"), x=("sc", "Int8"), y=("sc", "UInt8"), wr="elem", cap=64),          # small buffers: growth during the history
     # "flex": the string and the dynamic array of a Leaf have a length that differs from object to object (three layouts, chosen by
